@@ -297,6 +297,12 @@ var properties = map[string]*Property{
 			Quick:    Tier{Runs: 300, BudgetS: 60},
 			Thorough: Tier{Runs: 20000, BudgetS: 600},
 		}, {
+			Name: "reload-redis-creds", Property: "C19", Pkg: "./internal/cache/redis", Test: "TestVerifRedisCreds",
+			Dirs:     []string{"internal/cache/redis"},
+			Files:    []string{"zz_verif_creds_test.go"},
+			Quick:    Tier{Runs: 3000, BudgetS: 30},
+			Thorough: Tier{Runs: 200000, BudgetS: 300},
+		}, {
 			Name: "watcher-sim", Property: "C19", Pkg: "./internal/watcher", Test: "TestVerifWatcher",
 			Dirs:     []string{"internal/watcher"},
 			Files:    []string{"zz_verif_watcher_test.go"},
@@ -328,12 +334,12 @@ var properties = map[string]*Property{
 		}},
 		Rule: "one case = (signer-reload) one seeded schedule of token issuing, JWKS reads and key-store rewrites with torn prefixes exposed at notifications, empty / garbage / certificate-only / unsupported-key (RSA-1024, Ed25519) / wrong-key-usage contents and duplicated root certificates, under the scheduler and the race detector; (reload-tls, reload-httpsig) the same reload plan against the TLS key store with concurrent certificate() calls and the http_message_signatures strategy with concurrent Apply/Keys; (provider-fs-conc) the file_system provider's event handling and a writer as two tasks with yield points inside provider.go; (robust-sim) one of: a sequence of 1-4 truncated (byte or line offset) or type-confused (one or two YAML nodes replaced by a value of another kind) rule sets through the real parser, processor and rule factory with a previously loaded rule that must keep answering; 1-3 requests whose remote answers are truncated, byte-flipped, type-confused or emptied and whose tokens are malformed, through the three entry points; 1-4 requests with odd paths and header values; (listener-sim) heimdall's listener on a loopback socket meeting 1-5 misbehaving peers; (watcher-sim) the watcher behind secrets_reload_enabled on a real temporary directory with 2-6 in-place rewrites (emptied, few bytes, garbage, torn, complete) each of which must be followed by notifications. Non-trivial/distinct = distinct traces / schedule signatures.",
 		Real: []string{"jwt signer, TLS key store and http_message_signatures hot reload, keystore, pkix", "file_system provider event handling with the writer interleaved inside it", "rule set parser, decoder, rule factory, repository", "all mechanisms on corrupted answers", "the three entry points incl. recovery middleware / interceptor", "listener (listener-sim, loopback sockets, wall clock)", "internal/watcher with the kernel's inotify (watcher-sim, wall clock: notification within 5 s)"},
-		Stub: []string{"fsnotify watcher -> simulated watcher dispatching OnChanged as scheduler tasks (reload harnesses; watcher-sim runs the real one with counting listeners)", "remote parties with content-altering fault plan", "inotify events of the file_system provider (fed to ruleSetsChanged by a task)", "Redis file credentials and trust store reloads are not driven (the trust store has no hot reload; the Redis credentials file is YAML decoded into a plain struct)"},
+		Stub: []string{"fsnotify watcher -> simulated watcher dispatching OnChanged as scheduler tasks (reload harnesses; watcher-sim runs the real one with counting listeners)", "remote parties with content-altering fault plan", "inotify events of the file_system provider (fed to ruleSetsChanged by a task)", "the trust store has no hot reload; Redis itself is not run (reload-redis-creds drives the reload of its credentials file only)"},
 		Assumptions: []string{
 			"a crash is a panic escaping a load path or entry point, a task panic of a reload goroutine, or the death of the harness process (attributed and minimised by re-execution)",
 			"request lines net/http itself rejects (unparsable URL) are not sent",
 			"the rule provider paths (file system, HTTP endpoint, Kubernetes informer) are covered for crashes by the C18 harnesses, whose process deaths are reported the same way",
 		},
-		MustBePositive: []string{"robust-sim/ruleset-accepted", "robust-sim/ruleset-rejected-by-factory", "robust-sim/ruleset-rejected-by-parser", "robust-sim/fault:type-confuse", "robust-sim/odd-request-accepted", "signer-reload/fault:torn-write-exposed", "reload-tls/reloads", "reload-httpsig/reloads", "provider-fs-conc/processor-calls", "listener-sim/well-behaved-requests-answered", "watcher-sim/rewrites-followed-by-notifications"},
+		MustBePositive: []string{"robust-sim/ruleset-accepted", "robust-sim/ruleset-rejected-by-factory", "robust-sim/ruleset-rejected-by-parser", "robust-sim/fault:type-confuse", "robust-sim/odd-request-accepted", "signer-reload/fault:torn-write-exposed", "reload-tls/reloads", "reload-httpsig/reloads", "provider-fs-conc/processor-calls", "listener-sim/well-behaved-requests-answered", "watcher-sim/rewrites-followed-by-notifications", "reload-redis-creds/reloads"},
 	},
 }
